@@ -202,6 +202,9 @@ def cover(F, res, cg):
                     by = discharge.try_all(fi, mir.DefUse(fi), mir.CFG(fi), ps)
                     if by:
                         by += " (guard in an inlined helper)"
+            if by is None and ps.kind in ("K2", "K3", "K4"):
+                # the site moved into a helper; the guard (or the bound it compares with) is the callers'
+                by = discharge.try_in_callers(F, f, ps)
             if by is None and key in prows:
                 by = "D-TABLE: " + prows[key]
             if by is None and stale_prows.get(sig(key)):
